@@ -42,7 +42,18 @@ def exec_case(exe, base, name, lines, job):
 
 
 def run(ctx):
-    knobs = {"steps": 20, "durs": [1000, 2000, 59000, 60000, 61000, 3600000, 86400000, 90061000, 604800000, 5443200000],
+    from . import p_strm
+    exs = p_strm.build(ctx)
+    wired = [0]
+
+    def wire(text):
+        # what echsq sends and what checkpoint files hold: the tasks written by echs_task_icalify (dt-strpf's idiff_strf)
+        out, st, err = ctx.impl(exs, ["p.wire " + text.encode().hex()])
+        if not out or " " not in out[0]:
+            return text
+        wired[0] += 1
+        return bytes.fromhex(out[0].split()[0]).decode("latin-1")
+    knobs = {"wire": wire, "p_wire": 0.5, "steps": 20, "durs": [1000, 2000, 59000, 60000, 61000, 3600000, 86400000, 90061000, 604800000, 5443200000],
              "dur_forms": [None, "iso", "iso", "dtend"], "chk": False, "limits": [None], "p_cancel": 0.1}
     cases, lines, impl, model = p_echsd.run_checks(ctx, "C14", knobs, 300, 4000, RULE)
     # ---- (b) executor
